@@ -1,9 +1,9 @@
 (** C18 — orbits reported by the canonicaliser: every reported class consists of mutually exchangeable nodes and every
-    node is reported (sound half; see C18_orbits_partial for what is missing). *)
+    node is reported (sound half), and with proof/C18_OrbComplete.v the full clause (canon_orbits). *)
 From Coq Require Import List NArith ZArith Bool Arith Lia Permutation.
 From SK Require Import lib.IRSortKeys lib.IRCore lib.IRSearch model.C18_Model
   proof.C18_Order proof.C18_Spec proof.C18_Graph proof.C18_Canon proof.C18_Label proof.C18_Aut proof.C18_Invariant
-  proof.C18_Count proof.C18_Vf2 proof.C18_Orbits proof.C18_OrbSound.
+  proof.C18_Count proof.C18_Vf2 proof.C18_Orbits proof.C18_OrbSound proof.C18_OrbComplete.
 Import ListNotations.
 
 (** the best permutation is the first of the minimal leaves *)
@@ -60,3 +60,50 @@ Proof.
     + intros c Hc x y Hx Hy. destruct (S1 c Hc x y Hx Hy) as (_ & _ & H). exact H.
     + intros v Hv. apply S2. apply Inp. auto.
 Qed.
+
+(** clause 4, orbits of the canonicaliser, in full *)
+Theorem canon_orbits g lab p : wf g -> kinds_ok g -> arcs_ok g -> fst (canon_search g) = Some (lab, p) ->
+  forall u v, In u (node_ids g) ->
+    ((exists c, In c (orbits_from_perms (min_leaves g)) /\ In u c /\ In v c) <-> (exists s, is_aut g s /\ s u = v)).
+Proof.
+  intros Hw Hk Ha Hb u v Hu.
+  destruct (canon_orbits_sound g lab p Hw Hk Ha Hb) as [Snd Cov].
+  split; [intros (c & Hc & Huc & Hvc); apply (Snd c Hc u v Huc Hvc)|].
+  intros (s & Hs & <-).
+  destruct (aut_count g lab p Hw Hk Ha Hb) as (_ & Miff & _).
+  destruct (min_leaves_head g lab p Hb) as (rest & Eml).
+  destruct (best_is_leaf g lab p Hb) as [_ Hleaf].
+  destruct (leaves_of_keys g p Hw Hleaf) as (pre & r & Ep & Hr & _ & Ipre).
+  assert (Ip : forall x, In x p -> In x (node_ids g)).
+  { intros x Hx. rewrite Ep in Hx. apply in_app_or in Hx. destruct Hx; [apply Ipre; auto|apply (Permutation_in _ Hr); auto]. }
+  assert (Inp : forall x, In x (node_ids g) -> In x p).
+  { intros x Hx. rewrite Ep. apply in_or_app. right. apply (Permutation_in _ (Permutation_sym Hr)); auto. }
+  destruct (Cov u Hu) as (c & Hc & Huc). exists c. split; auto. split; auto.
+  set (R := fun x y => In x (node_ids g) /\ In y (node_ids g) /\ exists t, is_aut g t /\ t x = y).
+  pose proof Hc as Hc'. rewrite Eml in Hc'.
+  destruct (orbits_from_perms_complete p rest R) with (c := c) as (a & Hal & Hhome & Hall); auto.
+  - intros x y (Hx & Hy & t & Ht & <-). split; auto. split; auto.
+    destruct (aut_inv g t Hw Ht) as (t' & Ht' & Hl). exists t'. split; auto.
+  - intros x y z (Hx & Hy & t & Ht & <-) (_ & Hz & t' & Ht' & <-). split; auto. split; auto.
+    exists (fun w => t' (t w)). split; [apply aut_comp; auto|reflexivity].
+  - intros x Hx. split; [apply Ip; auto|]. split; [apply Ip; auto|]. exists (fun w => w). split; [apply aut_id|reflexivity].
+  - intros q Hq. assert (Hq' : In q (min_leaves g)) by (rewrite Eml; right; auto).
+    apply Miff in Hq'. destruct Hq' as (t & Ht & ->). split; [apply map_length|].
+    intros i Hi. rewrite (nth_indep _ 0%N (t 0%N)) by (rewrite map_length; auto). rewrite map_nth.
+    assert (Hn : In (nth i p 0%N) (node_ids g)) by (apply Ip; apply nth_In; auto).
+    split; [apply Inp; apply Ht; auto|]. split; auto. split; [apply Ht; auto|eauto].
+  - (* u = w (home), so s u = (s o w) home is the value at the home position of the leaf of s o w *)
+    destruct (Snd c Hc _ _ Hhome Huc) as (w & Hw' & Ew).
+    set (t := fun x => s (w x)).
+    assert (Ht : is_aut g t) by (unfold t; apply (aut_comp g w s); auto).
+    assert (Hq : In (map t p) (min_leaves g)) by (apply Miff; exists t; split; [exact Ht|reflexivity]).
+    assert (En : nth a (map t p) 0%N = s u).
+    { rewrite (nth_indep _ 0%N (t 0%N)) by (rewrite map_length; auto). rewrite map_nth. unfold t. rewrite Ew. reflexivity. }
+    rewrite Eml in Hq. destruct Hq as [Eq|Hq].
+    + rewrite <- En, <- Eq. exact Hhome.
+    + rewrite <- En. apply Hall. exact Hq.
+Qed.
+
+Lemma canon_orbits_cover g lab p : wf g -> kinds_ok g -> arcs_ok g -> fst (canon_search g) = Some (lab, p) ->
+  forall v, In v (node_ids g) -> exists c, In c (orbits_from_perms (min_leaves g)) /\ In v c.
+Proof. intros Hw Hk Ha Hb. exact (proj2 (canon_orbits_sound g lab p Hw Hk Ha Hb)). Qed.
